@@ -72,6 +72,8 @@ class WildGen:
             func_templated_inst=True,  # function template instantiated with a templated argument (D37, repaired)
             near_miss=True,            # identifiers that contain a parameter's spelling
             dunder_param_args=False,   # D39: dunder-method arguments of templated classes are not instantiated
+            multiline_defaults=True,   # default values containing a line break (the line-oriented MATLAB extractors of
+                                       # the harness cannot read routines that contain them: switched off there)
             special_names=0.0,         # python keywords / ipython names / print / serialize as member names
         )
         f.update(features)
@@ -174,7 +176,10 @@ class WildGen:
         return S.T(name, ns)
 
     def default(self):
-        return self.r.choice(DEFAULTS)
+        d = self.r.choice(DEFAULTS)
+        while not self.f['multiline_defaults'] and '\n' in d:
+            d = self.r.choice(DEFAULTS)
+        return d
 
     def args(self, allow_default=True, maxn=None):
         n = self.r.randint(0, maxn if maxn is not None else self.k.params)
